@@ -25,6 +25,7 @@ import random
 from fractions import Fraction as Fr
 
 from core import Driver, Result, parallel_map
+from corr import cli_annotator
 
 PI = math.pi
 TAU = 2 * math.pi
@@ -625,6 +626,18 @@ def pdb_variants(path, outdir, rng):
     pb = os.path.join(outdir, "icode-siblings-" + os.path.basename(path))
     open(pb, "w").write("\n".join(b) + "\n")
     out.append(pb)
+    # (c) every other purine without its N9 record (an incomplete residue: no glycosidic torsion can be given for it)
+    c, seen = [], {}
+    for ln in lines:
+        if ln.startswith(("ATOM", "HETATM")) and ln[17:20].strip() in ("A", "G", "DA", "DG") and ln[12:16].strip() == "N9":
+            k = (ln[21], ln[22:27])
+            seen.setdefault(k, len(seen))
+            if seen[k] % 2 == 0:
+                continue
+        c.append(ln)
+    pc = os.path.join(outdir, "purines-without-N9-" + os.path.basename(path))
+    open(pc, "w").write("\n".join(c) + "\n")
+    out.append(pc)
     return out
 
 
@@ -741,6 +754,9 @@ def _run_corpus(ctx, res, tables, files, quick_files):
                     res.count("corpus:chi_class:" + str(rec["class1"]))
                 else:
                     res.undecided += 1
+            if rec["angle"] == "chi" and rec["c1"] is None and rec["chi1"] is not None:
+                res.fail("spec", "C18:%s:value-without-glycosidic-atoms" % V1CHI, inp0,
+                         "chi %r although the residue lacks an atom of the glycosidic torsion of its base (O4', C1', N9, C4 for purines; O4', C1', N1, C2 otherwise)" % rec["chi1"])
             # both code paths on identical atoms: same magnitude, and which sign relation
             if rec["v1"] is not None and rec["table"] is not None and rec["c1"] == rec["c2"]:
                 a, b = rec["v1"], rec["table"]
@@ -831,11 +847,15 @@ def run(ctx):
         res.count("failures:" + s, c)
     run_corpus(ctx, res, tables)
     __import__("corr.fn_common", fromlist=["run_fn"]).run_fn(ctx, res, "C18")  # regenerated functions vs the real ones (tools/py2lean.py)
+    # the command-line tool as an observation point (harness/corr/cli_annotator.py)
+    cli_annotator.judge(res, "C18", cli_annotator.evaluate(ctx))
     return res
 
 
 def replay(ctx, data):
     """re-run one stored input through both implementations, the model and the specification"""
+    if cli_annotator.is_cli(data.get("input")):
+        return cli_annotator.replay_cli("C18", data["input"])
     inp = data["input"]
     if "points" not in inp:
         print("aggregate finding (no single quadruple):", inp)
